@@ -246,6 +246,10 @@ fn verif_witness_search_no_crash() {
     "{ let x = (a, b,); 1 }",
     "{ let x = (a,a,a,a,a,a,a,a,a,a,a,a,a,a,a,a,a,a,a,a,a,a,a,a); 1 }",
     "{ let x = (1,1,1,1,1,1,1,1,1,1,1,1,1,1,1,1,1,1,1,1,1,1,1,1); 1 }",
+    "{ let x = (a + 1,2,3,4,5,6,7,8,9,10,11,12,13,14,15,16,17); 1 }",
+    "{ let x = (a.b,2,3,4,5,6,7,8,9,10,11,12,13,14,15,16,17,18); 1 }",
+    "{ let x = (a,b,3,4,5,6,7,8,9,10,11,12,13,14,15,16,17,18); 1 }",
+    "{ let x = (1,); 1 }",
     "match p { (x, y) -> 1, (x, y, z) -> 2 }",
     "match p { (x, y, z) -> 1, (x, y) -> 2 }",
     "match p { (x) -> 1, (x, y) -> 2, (x, y, z) -> 3 }",
